@@ -9,13 +9,13 @@ CHECKS = {
         engine="E2+E3",
         cat="model_checking",
         technique="exhaustive enumeration of structured seed alphabets and complete 2^24/2^32 sub-cubes in lock-step with a reference model; GF(2) transition matrix extracted from the code compared with the reference matrix and bound by weight<=2/3 conformance replay",
-        text="Every non-zero seed of the alphabets O/W1/W2/WZ/BYTE, dense chained seeds, all carry-operand products and complete sub-cubes of each scrambler operand are stepped in lock-step with an independent transcription of the Blackman-Vigna C sources (output and successor state); for the 14 linear engines the transition matrix extracted from the implementation equals the reference matrix, which extends the step comparison to all 2^n states of the linear model. Added since: value-directed states (reference scramblers inverted for outputs 0 / all ones / half-zero; T^k preimages of special states for k = 255, 256, 65535, 65536; SplitMix64 counters -j*PHI), operands on which a multiplication split into partial products has a deciding carry (first and second stage of the * and ** scramblers), lock-step chains of 2^17+64 steps. Rounds 5-6: SplitMix64 counters for which an intermediate value of either finaliser (after each xor-shift and multiply) is zero / small / just above 2^32 or 2^33 / all ones, both output widths compared with the reference.",
+        text="Every non-zero seed of the alphabets O/W1/W2/WZ/BYTE, dense chained seeds, all carry-operand products and complete sub-cubes of each scrambler operand are stepped in lock-step with an independent transcription of the Blackman-Vigna C sources (output and successor state); for the 14 linear engines the transition matrix extracted from the implementation equals the reference matrix, which extends the step comparison to all 2^n states of the linear model. Added since: value-directed states (reference scramblers inverted for outputs 0 / all ones / half-zero; T^k preimages of special states for k = 255, 256, 65535, 65536; SplitMix64 counters -j*PHI), operands on which a multiplication split into partial products has a deciding carry (first and second stage of the * and ** scramblers), lock-step chains of 2^17+64 steps. Rounds 5-6: SplitMix64 counters for which an intermediate value of either finaliser (after each xor-shift and multiply) is zero / small / just above 2^32 or 2^33 / all ones, both output widths compared with the reference. Round 7: a second, lighter pass in a plain optimised build of the harness (no overflow checks, no debug assertions): code behind cfg!(debug_assertions) exists in only one of the two builds.",
         note="reference models from the published sources, self-validated against published vectors on every run; linearity of the engine beyond weight 2 (quick) / 3 (thorough) for the all-states claim; scrambler inputs outside the enumerated sub-cubes are not covered for the 64-bit two-operand adders",
         ref="4/C01"),
     "C04": dict(
         engine="E3+E2", cat="model_checking",
         technique="128x128 GF(2) step matrix extracted from the code == xor128 reference matrix (all 2^128 states of the model), bound by exhaustive weight<=3 conformance replay; lock-step enumeration of seed alphabets, dense chains and complete sub-cubes",
-        text="XorShiftRng is fully linear, so equality of the transition matrix extracted from the implementation with the matrix of Marsaglia's xor128 decides the step for every state; the model is bound to the code by replaying its predictions on every state of weight <= 3, walking zeros, all-ones and dense chains, and from_seed decoding is enumerated on every non-zero seed of O/W1/W2/WZ/BYTE in lock-step with the reference. Added since: states whose image or next output is special (solved on the reference matrix), T^k preimages for k around 2^8 and 2^16, 2^20-step chains.",
+        text="XorShiftRng is fully linear, so equality of the transition matrix extracted from the implementation with the matrix of Marsaglia's xor128 decides the step for every state; the model is bound to the code by replaying its predictions on every state of weight <= 3, walking zeros, all-ones and dense chains, and from_seed decoding is enumerated on every non-zero seed of O/W1/W2/WZ/BYTE in lock-step with the reference. Added since: states whose image or next output is special (solved on the reference matrix), T^k preimages for k around 2^8 and 2^16, 2^20-step chains. Round 7: second pass in the plain build (see C01); verdicts about states are confirmed on outputs, not on == or the snapshot layout.",
         note="xor128 reference validated against the paper's outputs; algebraic terms of degree > 3 hidden from the replay are not excluded",
         ref="4/C04"),
     "C06": dict(
@@ -27,13 +27,13 @@ CHECKS = {
     "C07": dict(
         engine="E3", cat="model_checking",
         technique="order of the GF(2) transition matrix extracted from the code: rank n, T^(2^n) = T, T^((2^n-1)/p) != I for all 13 prime factors; conformance replay binds the matrix to the code; collisions searched on the real code when binding fails",
-        text="ord(T) = 2^n - 1 for the matrix extracted from the implementation is equivalent to the non-zero states forming one cycle of length 2^n - 1; it is decided for all 15 linear types (7 distinct engines) and the matrix is bound to the code by exhaustive low-weight replay. A singular or non-linear step is turned into a concrete colliding pair of states on the real code. Added since: the API clause checked directly (from_seed alphabet, seed_from_u64 over the u64 alphabet incl. SplitMix64 zero-output preimages, from_rng over sources with up to 65536 leading all-zero blocks never yield the zero state), value-directed deep states. Rounds 5-6: the API clause also over try_from_rng.",
+        text="ord(T) = 2^n - 1 for the matrix extracted from the implementation is equivalent to the non-zero states forming one cycle of length 2^n - 1; it is decided for all 15 linear types (7 distinct engines) and the matrix is bound to the code by exhaustive low-weight replay. A singular or non-linear step is turned into a concrete colliding pair of states on the real code. Added since: the API clause checked directly (from_seed alphabet, seed_from_u64 over the u64 alphabet incl. SplitMix64 zero-output preimages, from_rng over sources with up to 65536 leading all-zero blocks never yield the zero state), value-directed deep states. Rounds 5-6: the API clause also over try_from_rng. Round 7: a seedless constructor (Default), if the type has one, is checked like every other seeding path.",
         note="primality of the factors of 2^512-1 (Miller-Rabin 40 bases + product check each run); linearity beyond replayed weights",
         ref="4/C07"),
     "C02": dict(
         engine="E2", cat="model_checking",
         technique="exhaustive enumeration of structured seed alphabets (every 1-, 2- and 3-bit key/IV pattern, walking zeros, byte probes, dense chains) against a specification-level HC-128 model, over >2 table cycles and through both entry points",
-        text="Every seed of Z/O/W1/W2/W3/WZ/BYTE and dense chained seeds is compared word by word with an independent transcription of Wu's specification (P/Q tables, one word per step) for 2200 words via Hc128Rng::next_u32 and 8 blocks via Hc128Core::generate; a subset runs 2^16..2^20 words; all 1024 (phase, j) step indices are confirmed exercised. Added since: reference-guided rare-event search (the reference model is run over 2^14 / 2^16 seeds x 2^20 words; every position with two equal successive words, a zero / all-ones word or four equal low bytes is then visited in lock-step on the real code), 2^21-word runs. Rounds 5-6: the rare-event search also records steps whose table increment is zero and steps whose h-index word has its upper 24 bits zero.",
+        text="Every seed of Z/O/W1/W2/W3/WZ/BYTE and dense chained seeds is compared word by word with an independent transcription of Wu's specification (P/Q tables, one word per step) for 2200 words via Hc128Rng::next_u32 and 8 blocks via Hc128Core::generate; a subset runs 2^16..2^20 words; all 1024 (phase, j) step indices are confirmed exercised. Added since: reference-guided rare-event search (the reference model is run over 2^14 / 2^16 seeds x 2^20 words; every position with two equal successive words, a zero / all-ones word or four equal low bytes is then visited in lock-step on the real code), 2^21-word runs. Rounds 5-6: the rare-event search also records steps whose table increment is zero and steps whose h-index word has its upper 24 bits zero. Round 7: second pass in the plain build (see C01).",
         note="specification model validated against the paper's vectors each run; seeds outside the alphabet are not enumerated (the key/IV enter only through 16 copied words, every bit of which is toggled alone, in pairs and in triples)",
         ref="4/C02"),
     "C03": dict(
@@ -51,7 +51,7 @@ CHECKS = {
     "C10": dict(
         engine="E1", cat="model_checking",
         technique="exhaustive enumeration of history states (depth 2-3, all start offsets, 3+k seeds); every state cloned and every pair of states compared with ==, equal pairs run under all continuations of depth 2",
-        text="For 20 generator types and the three public cores, every reachable state of the bounded history space is cloned and the clone compared with a replayed original under all continuations; every pair of states (millions) is compared with == and equal pairs must have identical futures; IsaacArray equality is probed slot by slot. Added since: Clone::clone_from into a fresh generator and into a generator in another state, states at every buffer index, serde-image neighbours (every single-byte change of a state's image: a neighbour that compares equal must have the same future), native-width twins, clones around call counts 2^8 / 2^16, clones at rare stream events, 2^17 / 2^18-state birthday pair sets for Hc128Core. Rounds 5-6: every == is accompanied by != (must be its negation); block cores keep a persistent results buffer for word reads, get a fresh one per block in fill_bytes, and a clone starts with a fresh buffer.",
+        text="For 20 generator types and the three public cores, every reachable state of the bounded history space is cloned and the clone compared with a replayed original under all continuations; every pair of states (millions) is compared with == and equal pairs must have identical futures; IsaacArray equality is probed slot by slot. Added since: Clone::clone_from into a fresh generator and into a generator in another state, states at every buffer index, serde-image neighbours (every single-byte change of a state's image: a neighbour that compares equal must have the same future), native-width twins, clones around call counts 2^8 / 2^16, clones at rare stream events, 2^17 / 2^18-state birthday pair sets for Hc128Core. Rounds 5-6: every == is accompanied by != (must be its negation); block cores keep a persistent results buffer for word reads, get a fresh one per block in fill_bytes, and a clone starts with a fresh buffer. Round 7: comparisons that panic inside the crate are reported, not crashed on.",
         note="bounded history depth and continuation depth; states rebuilt by replay (no reliance on Clone)",
         ref="4/C10"),
     "C11": dict(
@@ -69,7 +69,7 @@ CHECKS = {
     "C08": dict(
         engine="E2+E4", cat="model_checking",
         technique="exhaustive enumeration of every constructor over structured seed alphabets, the u64 alphabet (incl. the SplitMix64 zero-output preimages), complete 2^22/2^32 sub-cubes of the u64 argument, and source scripts with 0..8 leading all-zero blocks",
-        text="from_seed, seed_from_u64, from_rng and try_from_rng of the 14 linear xoshiro types and XorShiftRng never return the all-zero state on any enumerated input; the zero seed is replaced by the documented generator, an all-zero source block is remapped or redrawn, and every non-zero alphabet seed is used verbatim (state image == seed, hence injective). Added since: up to 65536 (2^18 thorough) leading all-zero source blocks, seeds and blocks made of the documented replacement constants, u64 arguments obtained by inverting SplitMix64 so that an expansion word is zero / half-zero / all ones. Rounds 5-6: source blocks with special word patterns (zero word, equal words, words summing / xoring to zero).",
+        text="from_seed, seed_from_u64, from_rng and try_from_rng of the 14 linear xoshiro types and XorShiftRng never return the all-zero state on any enumerated input; the zero seed is replaced by the documented generator, an all-zero source block is remapped or redrawn, and every non-zero alphabet seed is used verbatim (state image == seed, hence injective). Added since: up to 65536 (2^18 thorough) leading all-zero source blocks, seeds and blocks made of the documented replacement constants, u64 arguments obtained by inverting SplitMix64 so that an expansion word is zero / half-zero / all ones. Rounds 5-6: source blocks with special word patterns (zero word, equal words, words summing / xoring to zero). Round 7: Default::default() where it exists; the verbatim comparison is made only where the snapshot is the plain state.",
         note="documented replacement values; u64 arguments outside the alphabet and sub-cubes are not enumerated (the structural argument about SplitMix64 zero outputs is covered by including all eight preimages)",
         ref="4/C08"),
     "C09": dict(
@@ -81,13 +81,13 @@ CHECKS = {
     "C12": dict(
         engine="E4xE1", cat="model_checking",
         technique="all operation histories up to depth 3/4 x every placement of <= 1 (short histories: 2) timer deviations of 16 kinds over the readings consumed, runs of up to 4097 / 65537 consecutive stuck measurements, compared step by step (value, readings consumed, final pool) with a reference model of the documented procedure",
-        text="JitterRng driven by scripted call-counting timers returns, for every enumerated history and deviation placement, exactly the values, reading counts and final pool of the documented Jitterentropy procedure run on the same readings; test_timer is included with a deviation at every 23rd / every one of its 1601 readings. Added since: 16 deviation kinds (incl. probe deltas that are non-zero multiples of 2^32, ties at the priming probe), runs of 1..4097 (65537 thorough) consecutive stuck measurements of three kinds at every measurement of the first two collections, coarse clocks (granularity 2, 100, 1000, 2^20), one object living through 2^16+8 collections. Rounds 5-6: test_timer in the middle of a stream (a half pending across it, twice in a row, after set_rounds) with deviations.",
+        text="JitterRng driven by scripted call-counting timers returns, for every enumerated history and deviation placement, exactly the values, reading counts and final pool of the documented Jitterentropy procedure run on the same readings; test_timer is included with a deviation at every 23rd / every one of its 1601 readings. Added since: 16 deviation kinds (incl. probe deltas that are non-zero multiples of 2^32, ties at the priming probe), runs of 1..4097 (65537 thorough) consecutive stuck measurements of three kinds at every measurement of the first two collections, coarse clocks (granularity 2, 100, 1000, 2^20), one object living through 2^16+8 collections. Rounds 5-6: test_timer in the middle of a stream (a half pending across it, twice in a row, after set_rounds) with deviations. Round 7: time stamps that return to earlier values (all sequences of four probe deltas over {-2b..2b}), start pools (hook) for which a fold / a whole collection leaves the pool unchanged or the second word repeats the first (solved on the reference model); second pass in the plain build.",
         note="reference model in refmodels::jitter; more than 2 simultaneous deviations only as bursts in C14; rounds > 3 run without deviations",
         ref="4/C12"),
     "C13": dict(
         engine="E4", cat="model_checking",
         technique="exhaustive enumeration of complete 1601-reading timer scripts (every variation sum 1..6000 and every log2 boundary, threshold scripts, all periodic delta patterns of period <= 3/4) against an oracle computed from the statement",
-        text="For every enumerated timer, Ok(r) is returned only when no documented failure condition holds, with 1 <= r <= 128, r*bitlen(mean) >= 128 and set_rounds(r) not panicking; every Err names a condition that holds on the script. Every table value of r and every TimerError variant is observed. Added since: threshold families straddling every limit (stuck 270/271 incl. ties that exist only in wrapping 32-bit arithmetic, multiples of 100 on backward probes and with raw 2^32 offsets, backward counts, variation sums around 600 and 4800 on the (stuck, sum) grid), each also after a previous test_timer / next_u64 on the same object. Rounds 5-6: staircase scripts (every delta repeated r times then stepped), and the Display text of a returned error must not name a documented condition that does not hold.",
+        text="For every enumerated timer, Ok(r) is returned only when no documented failure condition holds, with 1 <= r <= 128, r*bitlen(mean) >= 128 and set_rounds(r) not panicking; every Err names a condition that holds on the script. Every table value of r and every TimerError variant is observed. Added since: threshold families straddling every limit (stuck 270/271 incl. ties that exist only in wrapping 32-bit arithmetic, multiples of 100 on backward probes and with raw 2^32 offsets, backward counts, variation sums around 600 and 4800 on the (stuck, sum) grid), each also after a previous test_timer / next_u64 on the same object. Rounds 5-6: staircase scripts (every delta repeated r times then stepped), and the Display text of a returned error must not name a documented condition that does not hold. Round 7: differences of 2^63 and more inside a probe, a counter that wraps around inside a probe, variation sums 4560..4860 with 1..3 backward probes.",
         note="conditions computed from the readings on the documented schedule (confirmed on the run); genuine defect fixed in 048a21d (Ok(0) for mean 1)",
         ref="4/C13"),
     "C14": dict(
@@ -105,19 +105,19 @@ CHECKS = {
     "C16": dict(
         engine="E1xE4", cat="model_checking",
         technique="all histories of depth 4/5 over output calls and clone / clone_from operations for rounds 1,2,3,64,255 on scripted timers (benign, value-directed pools, long stuck runs); each step checked for its value against a native-width twin and for the number of timer readings on the generator's own cursor",
-        text="Two consecutive next_u32 return low then high half of one collected value with the timer read only during the first; every other output call performs a fresh collection of the expected number of readings; a clone's first output always comes from a fresh collection. The one literal deviation (fill_bytes of 1..4 bytes with a half pending reuses the half, by design of the crate) is a recorded known finding. Added since: Clone::clone_from into a fresh generator and into one with a half of its own pending, value-directed pools (first collected word zero / zero half / relations between two successive words), timers with runs of 31..1030 stuck measurements in the first three collections (reading counts taken per collection from the native twin); a clone's expected values come from a native-width twin built from the clone's own pool, so only the stated relation is demanded. Rounds 5-6: set_rounds steps inside histories (twin re-based), output calls aborted by a failing (panicking) timer at reading 0 / 4 / last with the generator used again afterwards, duplicates made by plain copy where the type is Copy.",
+        text="Two consecutive next_u32 return low then high half of one collected value with the timer read only during the first; every other output call performs a fresh collection of the expected number of readings; a clone's first output always comes from a fresh collection. The one literal deviation (fill_bytes of 1..4 bytes with a half pending reuses the half, by design of the crate) is a recorded known finding. Added since: Clone::clone_from into a fresh generator and into one with a half of its own pending, value-directed pools (first collected word zero / zero half / relations between two successive words), timers with runs of 31..1030 stuck measurements in the first three collections (reading counts taken per collection from the native twin); a clone's expected values come from a native-width twin built from the clone's own pool, so only the stated relation is demanded. Rounds 5-6: set_rounds steps inside histories (twin re-based), output calls aborted by a failing (panicking) timer at reading 0 / 4 / last with the generator used again afterwards, duplicates made by plain copy where the type is Copy. Round 7: a fresh collection must take at least `rounds` measurements (also on non-monotonic clocks whose stamps return to the collection's first stamp).",
         note="clones get an identical timer (independent cursor); known finding C16:fill-tail-reuses-pending-half",
         ref="4/C16"),
     "C18": dict(
         engine="E6", cat="exploration",
         technique="complete configuration matrix {opt 0,3} x {overflow-checks+debug-assertions on,off} x {optional features (serde, log, std) off,on}: the same enumerated corpus (histories, constructors, jumps, scripted-timer JitterRng incl. hostile timers) replayed by the same source in all 8 builds, per-item digests compared",
-        text="Every item of a fixed enumerated corpus (all histories to depth 2/3 over the output alphabet from 4 seeds and 2 buffer offsets for 19 types, byte-probe and pair-of-bits seeds, u64 ranges, long runs, JitterRng deviations/bursts/test_timer patterns) produces the same digest - or the same panic - in all 8 build configurations. Added since: the features axis turns on every optional feature (serde, and rand_jitter's log with a formatting logger); 2^16-block (HC-128) / 2^18-block (ISAAC) runs and a 6000-collection JitterRng life from one object; value-directed seeds from the reference matrices (state, successor or jump image special); 17 deviation kinds; stuck runs up to 4097. Rounds 5-6: misaligned fills in the corpus; the features axis also turns on rand_jitter's std feature.",
+        text="Every item of a fixed enumerated corpus (all histories to depth 2/3 over the output alphabet from 4 seeds and 2 buffer offsets for 19 types, byte-probe and pair-of-bits seeds, u64 ranges, long runs, JitterRng deviations/bursts/test_timer patterns) produces the same digest - or the same panic - in all 8 build configurations. Added since: the features axis turns on every optional feature (serde, and rand_jitter's log with a formatting logger); 2^16-block (HC-128) / 2^18-block (ISAAC) runs and a 6000-collection JitterRng life from one object; value-directed seeds from the reference matrices (state, successor or jump image special); 17 deviation kinds; stuck runs up to 4097. Rounds 5-6: misaligned fills in the corpus; the features axis also turns on rand_jitter's std feature. Round 7: from_rng / try_from_rng items (up to 400 000 leading zero blocks for XorShiftRng), test_timer scripts with exact variation sums at every boundary of the rounds estimate; a replayer that aborts in some configurations and completes in others is a violation.",
         note="corpus is finite and fixed; configurations are the complete matrix stated in the property; the serde axis only changes what is compiled",
         ref="4/C18"),
     "C19": dict(
         engine="E5", cat="model_checking",
         technique="exhaustive enumeration of operation-granularity interleavings x thread assignments of 2-3 generator instances on real OS threads under a token-passing scheduler; oracle = the same instance history run alone in a fresh child process; Send/Sync by a compile-time probe",
-        text="For 176 configurations (same-type seed pairs incl. zero seeds, cross-type pairs, zero seeds of increasing state size, JitterRng pairs incl. test_timer, three-instance runs) every interleaving of the [construct, op, op] histories and every assignment of steps to two threads is executed; each instance's observations equal its solo run in a fresh process. All generator types are Send + Sync (compile-time probe). Added since: re-entrant constructions (the source handed to from_rng constructs another generator before / after delivering its bytes), overlapping operations (another instance runs a whole operation inside timer read #k of a JitterRng operation, every k, on the same thread and on another thread), JitterRng instances whose timers are zero-sized fn items of different types, arithmetic coincidences between the deltas of two instances, long stuck runs on one instance.",
+        text="For 176 configurations (same-type seed pairs incl. zero seeds, cross-type pairs, zero seeds of increasing state size, JitterRng pairs incl. test_timer, three-instance runs) every interleaving of the [construct, op, op] histories and every assignment of steps to two threads is executed; each instance's observations equal its solo run in a fresh process. All generator types are Send + Sync (compile-time probe). Added since: re-entrant constructions (the source handed to from_rng constructs another generator before / after delivering its bytes), overlapping operations (another instance runs a whole operation inside timer read #k of a JitterRng operation, every k, on the same thread and on another thread), JitterRng instances whose timers are zero-sized fn items of different types, arithmetic coincidences between the deltas of two instances, long stuck runs on one instance. Round 7: clone families (operations on a clone, incl. set_rounds / jumps / test_timer, must not change what the original returns, and vice versa).",
         note="operation granularity is complete because no generator path contains a synchronisation operation (inventory printed); JitterRng::new() (wall clock) excluded; schedules are serialised, so the memory model is not exercised",
         ref="4/C19"),
 }
